@@ -16,7 +16,7 @@ from optimum.quanto.tensor.qbits.packed import PackedTensor
 
 ACT = {"none": None, "qint8": O.QT8["qint8"], "qfloat8_e4m3fn": O.QT8["qfloat8_e4m3fn"], "qfloat8_e5m2": O.QT8["qfloat8_e5m2"]}
 STEPS = ["forward", "calibrate", "calibrate-grad", "freeze", "freeze", "freeze_again", "deepcopy", "to_cpu_copy", "reload", "channels_last", "continue_on_copy",
-         "freeze_one", "freeze_one", "to_inplace", "to_inplace"]
+         "freeze_one", "freeze_one", "to_inplace", "to_inplace", "set_scales"]
 
 
 @st.composite
@@ -183,8 +183,11 @@ def _exec_history(case):
 
     def same_outputs(a, b):
         return len(a) == len(b) and all(same_output(x, y) for x, y in zip(a, b))
+    mixed = False
     for st_ in case["steps"]:
         tag = st_
+        if mixed and st_ not in ("forward", "freeze", "freeze_again", "deepcopy", "freeze_one"):
+            continue  # (scales of another float dtype than the model: reloading or moving the model legitimately casts them)
         if st_ == "forward":
             with torch.no_grad():
                 y = cut(model, M.batch(shape, dtype, g))
@@ -206,6 +209,16 @@ def _exec_history(case):
                 r = cut(go)
             if isinstance(r, Raised):
                 return out.fail(f"calibrate-raises:{r.type}", r.text)
+        elif st_ == "set_scales":
+            # activation scales written by the user (from a config file, as default-dtype float32 tensors), whatever the dtype of
+            # the model: freeze() has to leave them as they are
+            if aq is None or wq.bits != 8 or frozen or fam != "lin":
+                continue  # (only a lone 8-bit QLinear runs with scales of another float dtype than its weights)
+            mixed = dtype != torch.float32
+            for _, m_ in model.named_modules():
+                if isinstance(m_, QModuleMixin) and m_.activation_qtype is not None:
+                    m_.input_scale = torch.tensor(0.05 + 0.01 * (case["seed"] % 5))
+                    m_.output_scale = torch.tensor(0.11 + 0.01 * (case["seed"] % 3))
         elif st_ in ("freeze", "freeze_again"):
             if st_ == "freeze_again" and not frozen:
                 continue
@@ -314,7 +327,7 @@ def _exec_history(case):
             if isinstance(r, Raised):
                 return out.fail(f"channels_last-raises:{r.type}/{'frozen' if frozen else 'unfrozen'}", r.text)
         did.append(st_)
-    if frozen and case.get("final") and not out.failures:
+    if frozen and case.get("final") and not out.failures and not mixed:
         # the last thing an inference script does: move the frozen model inside torch.inference_mode() (where Tensor.to is not
         # decomposed and reaches the tensors as aten.to) and run it there. A final step: inference tensors cannot go back.
         y0 = run_probes(model)
